@@ -679,6 +679,44 @@ func c11GenRounds(r *Rng, em *Emitter) c11Input {
 	return b.input()
 }
 
+// c11GenVolume: the plugin at its limits: every round surfaces up to OutcomeSurfacedProposalsLimit new proposals
+// and the outcome carries the full OutcomeSurfacedProposalsRoundHistoryLimit-round history; rounds faster than
+// 1 s, so that well over a thousand distinct work ids pass through the queue inside one 20 s window while
+// the whole history is enqueued again every round.  Both final flows dequeue their batch size per round.
+func c11GenVolume(r *Rng, em *Emitter) c11Input {
+	b := newC11B(r)
+	rounds := r.Range(22, 27)
+	perRound := ocr2keepersv3.OutcomeSurfacedProposalsLimit
+	if r.Chance(30) {
+		perRound = r.Range(40, perRound)
+	}
+	step := int64(r.Range(137, 700)) * int64(time.Millisecond)
+	var history [][]JProp
+	seq := 0
+	for round := 0; round < rounds; round++ {
+		b.adv(step + int64(r.Intn(1000)))
+		var latest []JProp
+		for i := 0; i < perRound; i++ {
+			ty := uint8(i % 2)
+			id := c11Ident{uid: ocr2keepers.UpkeepIdentifier(simutil.NewUpkeepID(r.Bytes(8), ty)), wid: fmt.Sprintf("v%05d", (r.Intn(90)+10)*1000+seq)}
+			seq++
+			latest = append(latest, id.at(r, uint64(100+round)))
+		}
+		history = append([][]JProp{latest}, history...)
+		if len(history) > ocr2keepersv3.OutcomeSurfacedProposalsRoundHistoryLimit {
+			history = history[:ocr2keepersv3.OutcomeSurfacedProposalsRoundHistoryLimit]
+		}
+		b.outcome(history)
+		b.deq(uint8(types.LogTrigger), flows.FinalRecoveryBatchSize)
+		b.deq(uint8(types.ConditionTrigger), flows.FinalConditionalBatchSize)
+		if r.Chance(20) {
+			b.deq(uint8(r.Intn(2)), flows.FinalRecoveryBatchSize)
+		}
+	}
+	em.Hit("volume")
+	return b.input()
+}
+
 func c11Gen(r *Rng, em *Emitter) c11Input {
 	switch x := r.Intn(100); {
 	case x < 35:
@@ -975,6 +1013,11 @@ func TestC11(t *testing.T) {
 	n := tierN(3000, 30000)
 	for i := 0; i < n; i++ {
 		runOne("gen", c11Gen(r, em))
+	}
+	// volume: more than a thousand work ids inside one window (own stream; few cases, each large)
+	rv := NewRng(seed() ^ 0x70155)
+	for i, nv := 0, tierN(2, 12); i < nv; i++ {
+		runOne("gen", c11GenVolume(rv, em))
 	}
 	// plugin level: one instance, Observation after Observation (own stream, so the case mix above is unchanged)
 	rp := NewRng(seed() ^ 0x11c11)
